@@ -59,6 +59,10 @@ FORCED = [
     [("INBOX", ["UID FETCH 5 (FLAGS BODY.PEEK[HEADER.FIELDS (X-CID)] BODY.PEEK[])"]), ("INBOX", ["UID FETCH 1:4 (FLAGS BODY.PEEK[HEADER.FIELDS (X-CID)] BODY.PEEK[])"]), ("INBOX", ["UID STORE 1:4 +FLAGS (\\Flagged)"])],
     [("INBOX", ["UID STORE 5 +FLAGS (kwx)"]), ("INBOX", ["UID MOVE 1:3 other"]), ("INBOX", ["UID STORE 2:4 +FLAGS (\\Answered)"])],
     [("INBOX", ["UID COPY 5 other"]), ("INBOX", ["UID COPY 1:4 other"]), ("INBOX", ["UID STORE 1:4 FLAGS (\\Draft)"]), ],
+    # a uid-forced EXPUNGE (POP3 QUIT, MOVE phase 3) arriving when the Deleted sequence is empty, beside a COPY/FETCH reading the same messages
+    [("pop3", ["DELE 3", "QUIT"]), ("INBOX", ["EXPUNGE"]), ("INBOX", ["UID COPY 3:5 other"])],
+    [("pop3", ["DELE 1", "DELE 3", "QUIT"]), ("INBOX", ["UID STORE 1:* -FLAGS (\\Deleted)"]), ("INBOX", ["UID FETCH 1:* (FLAGS BODY.PEEK[HEADER.FIELDS (X-CID)] BODY.PEEK[])"])],
+    [("INBOX", ["UID STORE 1:* -FLAGS (\\Deleted)", "UID MOVE 1,3 other"]), ("INBOX", ["UID COPY 1:5 other"]), ("INBOX", ["UID FETCH 1:* (FLAGS BODY.PEEK[HEADER.FIELDS (X-CID)] BODY.PEEK[])"])],
     # POP3 QUIT with marks while IMAP works on INBOX
     [("pop3", ["DELE 1", "DELE 3", "QUIT"]), ("INBOX", ["UID COPY 1:5 other"]), ("INBOX", ["EXPUNGE"])],
     [("pop3", ["DELE 2", "QUIT"]), ("INBOX", ["UID MOVE 1:3 other"])],
@@ -567,7 +571,8 @@ def run_shard(spec):
             # whether its later, mailbox-independent commands still run)
             cmdset = [(w, c[:1] if w == "other" else c) for w, c in cmdset]
         try:
-            cases += explore(spec, k, cmdset, counts, scratch, spec.get("nsched", 6), spec.get("systematic", 0) if k < len(FORCED) or k % 4 == 0 else 0)
+            forced = k < len(FORCED)
+            cases += explore(spec, k, cmdset, counts, scratch, spec.get("nsched", 6) * (3 if forced else 1), spec.get("systematic", 0) * (3 if forced else 1) if forced or k % 4 == 0 else 0)
         except Exception:
             import traceback
 
